@@ -244,7 +244,7 @@ class C10(L.ShrinkMixin, Check):
                "Model/Security.v (C07) supplies NASEncrypt / NASMacCalculate for execution; the theorems are parametric in the two functions",
                "the NAS codec is outside (C08): the harness re-encodes the returned message with PlainNasEncode; messages are canonical ones "
                "(constructor-built, PlainNasEncode . PlainNasDecode = id, checked by harness command nasmsgs)",
-               "Go harness cmd_nassec.go calls tglib.NASDecode(ue, nas.GetSecurityHeaderType(pkt), pkt) as GetNasPdu does; the NGAP wrapping of the NAS-PDU is C04/C13's"]
+               "Go harness cmd_nassec.go calls the real tglib.GetNasPdu on a DOWNLINK NAS TRANSPORT value carrying the NAS-PDU; the NGAP wrapping of the NAS-PDU is C04/C13's"]
     assumptions = ["algorithm pairs {NIA1,NIA2} x {NEA0,NEA1,NEA2}; NIA0 branch, unsupported identifiers, header octets above 4, truncated packets: model only",
                    "sequence number advance d with 1 <= d <= 255 between consecutive protected messages of one context (an advance of 256 or more is not "
                    "distinguishable by any receiver)",
